@@ -2,6 +2,7 @@
 import hll_rules as H
 import chains
 import generic_lints
+import triggers
 
 
 def run(facts, tier):
@@ -17,6 +18,7 @@ def run(facts, tier):
         ("canonical chains", lambda fa: chains.obligations(fa, ["hll"]), 11, "typed update overloads follow the cross-language canonicalisation contract"),
         ("mode byte", H.mode_byte, 1, "mode byte encode/decode are inverse"),
         ("duplicate operands", lambda fa: generic_lints.duplicate_conjuncts(fa, ('hll/',)), 2, "no logical chain tests the same operand twice (copy-paste of the wrong peer)"),
+        ("structural triggers", lambda fa: triggers.obligations(fa, ['AuxHashMap', 'CouponHashSet', 'CouponList', 'Hll4Array']), 9, "the comparisons that decide when to resize / rebuild / compact / purge / promote keep their reviewed boundary (operator and constants)"),
     ):
         o = f(facts)
         obs += o
